@@ -20,7 +20,10 @@ var universalTags = []byte{0x02, 0x03, 0x04, 0x05, 0x06, 0x0c, 0x13, 0x16, 0x17,
 // Perturb draws one perturbation of valid. asn1 says whether TLV-aware rewrites make sense.
 func Perturb(valid []byte, asn1 bool) *rapid.Generator[Perturbed] {
 	return rapid.Custom(func(t *rapid.T) Perturbed {
-		kinds := []string{"truncation", "byte_subst", "byte_subst", "empty", "random", "extend", "dup_prefix"}
+		kinds := []string{"truncation", "byte_subst", "byte_subst", "empty", "random", "extend", "dup_prefix", "vec_len"}
+		if !asn1 {
+			kinds = append(kinds, "vec_len", "vec_len")
+		}
 		if asn1 {
 			kinds = append(kinds, "len_rewrite", "len_rewrite", "tag_swap", "tag_swap")
 		}
@@ -44,6 +47,31 @@ func Perturb(valid []byte, asn1 bool) *rapid.Generator[Perturbed] {
 				pos := rapid.IntRange(0, len(out)-1).Draw(t, "pos")
 				out[pos] = rapid.SampledFrom(substAlphabet(out[pos])).Draw(t, "val")
 			}
+		case "vec_len":
+			// length-prefixed vectors (TLS messages, PKCS#12 BMP strings, raw ciphertexts): 1..3 bytes at some
+			// position are overwritten with a value chosen relative to what follows them
+			if len(out) < 2 {
+				return Perturbed{out, "empty", ""}
+			}
+			w := rapid.IntRange(1, 3).Draw(t, "width")
+			if w > len(out) {
+				w = len(out)
+			}
+			pos := rapid.IntRange(0, len(out)-w).Draw(t, "vpos")
+			rem := len(out) - pos - w
+			cur := 0
+			for i := 0; i < w; i++ {
+				cur = cur<<8 | int(out[pos+i])
+			}
+			v := []int{rem + 1, rem + 2, rem - 1, 2 * rem, 2*rem - 2, rem + rem/2, rem / 2, cur + 1, cur + 2, cur - 1, 2 * cur, 0, 1<<(8*uint(w)) - 1}[Uniform(t, "vval", 13)]
+			if v < 0 {
+				v = 0
+			}
+			for i := w - 1; i >= 0; i-- {
+				out[pos+i] = byte(v)
+				v >>= 8
+			}
+			return Perturbed{out, "vec_len", ""}
 		case "empty":
 			out = nil
 		case "random":
